@@ -45,6 +45,13 @@ class UserAddEdge(ActionGroup):
             raise InvalidActionError(
                 f"Target node {target} not in solution yet - must be added before edge"
             )
+        source_time = tracks.get_time(source)
+        target_time = tracks.get_time(target)
+        if source_time >= target_time:
+            raise InvalidActionError(
+                f"Cannot add edge {edge}: source (time {source_time}) must be earlier "
+                f"in time than target (time {target_time})"
+            )
 
         # Check if making a merge. If yes and force, remove the other edge and update
         # track ids.
